@@ -670,7 +670,12 @@ func prepass(path string, fd *ast.FuncDecl) *ast.FuncDecl {
 	before := src(fd.Body)
 	destructure(path, fd)
 	expandHelpers(path, fd)
+	inlineStmtCalls(path, fd)
+	normaliseSmall(fd)
+	propagateLenCap(fd)
+	normaliseIndexLoops(fd)
 	inlineGuardClosures(fd)
+	inlineOnceStartedClosures(fd)
 	normaliseCountedRecv(fd)
 	normaliseRecvLoops(fd)
 	normaliseNames(fd)
@@ -988,6 +993,32 @@ func mapExprs(root ast.Node, f func(ast.Expr) ast.Expr) {
 			y.X = re(y.X)
 			walk(y.Body)
 		case *ast.DeclStmt, *ast.BranchStmt, *ast.EmptyStmt:
+		case *ast.SelectStmt:
+			walk(y.Body)
+		case *ast.CommClause:
+			if y.Comm != nil {
+				walk(y.Comm)
+			}
+			for _, s := range y.Body {
+				walk(s)
+			}
+		case *ast.SwitchStmt:
+			if y.Init != nil {
+				walk(y.Init)
+			}
+			if y.Tag != nil {
+				y.Tag = re(y.Tag)
+			}
+			walk(y.Body)
+		case *ast.CaseClause:
+			for i := range y.List {
+				y.List[i] = re(y.List[i])
+			}
+			for _, s := range y.Body {
+				walk(s)
+			}
+		case *ast.LabeledStmt:
+			walk(y.Stmt)
 		case *ast.IncDecStmt:
 			y.X = re(y.X)
 		case *ast.SendStmt:
@@ -1316,4 +1347,595 @@ func normaliseCountedRecv(fd *ast.FuncDecl) {
 				Body: &ast.BlockStmt{List: []ast.Stmt{&ast.ReturnStmt{}}}})
 		lit.Body.List[last] = &ast.RangeStmt{Key: x, Tok: token.DEFINE, X: u.X, Body: &ast.BlockStmt{List: nb}}
 	}
+}
+
+// `name := func() { … }` (no parameters, no results) that is mentioned exactly once more, as the top-level statement
+// `go name()`, is the literal goroutine `go func() { … }()`.
+func inlineOnceStartedClosures(fd *ast.FuncDecl) {
+	for {
+		changed := false
+		for k, st := range fd.Body.List {
+			as, ok := st.(*ast.AssignStmt)
+			if !ok || as.Tok != token.DEFINE || len(as.Lhs) != 1 || len(as.Rhs) != 1 {
+				continue
+			}
+			name, ok := as.Lhs[0].(*ast.Ident)
+			lit, ok2 := as.Rhs[0].(*ast.FuncLit)
+			if !ok || !ok2 || (lit.Type.Params != nil && len(lit.Type.Params.List) != 0) || (lit.Type.Results != nil && len(lit.Type.Results.List) != 0) {
+				continue
+			}
+			mentions := 0
+			ast.Inspect(fd.Body, func(n ast.Node) bool {
+				if i, ok := n.(*ast.Ident); ok && i.Name == name.Name {
+					mentions++
+				}
+				return true
+			})
+			if mentions != 2 {
+				continue
+			}
+			for j, s2 := range fd.Body.List {
+				g, ok := s2.(*ast.GoStmt)
+				if !ok || j <= k || len(g.Call.Args) != 0 {
+					continue
+				}
+				if i, ok := g.Call.Fun.(*ast.Ident); ok && i.Name == name.Name {
+					g.Call.Fun = lit
+					fd.Body.List = append(append([]ast.Stmt{}, fd.Body.List[:k]...), fd.Body.List[k+1:]...)
+					changed = true
+					break
+				}
+			}
+			if changed {
+				break
+			}
+		}
+		if !changed {
+			return
+		}
+	}
+}
+
+// `n := len(xs)` / `n := cap(ch)` at the top level of the function, xs/ch a parameter, n never assigned again and its
+// address never taken: every later mention of n is the expression itself (parameters of slice and channel type are not
+// re-sliced or replaced by the stage functions: checked — xs must not be assigned either).
+func propagateLenCap(fd *ast.FuncDecl) {
+	params := map[string]bool{}
+	for _, p := range fd.Type.Params.List {
+		for _, n := range p.Names {
+			params[n.Name] = true
+		}
+	}
+	for k := 0; k < len(fd.Body.List); k++ {
+		as, ok := fd.Body.List[k].(*ast.AssignStmt)
+		if !ok || as.Tok != token.DEFINE || len(as.Lhs) != 1 || len(as.Rhs) != 1 {
+			continue
+		}
+		n, ok := as.Lhs[0].(*ast.Ident)
+		call, ok2 := as.Rhs[0].(*ast.CallExpr)
+		if !ok || !ok2 || len(call.Args) != 1 {
+			continue
+		}
+		f, ok := call.Fun.(*ast.Ident)
+		x, ok2 := call.Args[0].(*ast.Ident)
+		if !ok || !ok2 || (f.Name != "len" && f.Name != "cap") || !params[x.Name] {
+			continue
+		}
+		bad := false
+		ast.Inspect(fd.Body, func(m ast.Node) bool {
+			switch y := m.(type) {
+			case *ast.AssignStmt:
+				if y != as {
+					for _, l := range y.Lhs {
+						if i, ok := l.(*ast.Ident); ok && (i.Name == n.Name || i.Name == x.Name) {
+							bad = true
+						}
+					}
+				}
+			case *ast.IncDecStmt:
+				if i, ok := y.X.(*ast.Ident); ok && (i.Name == n.Name || i.Name == x.Name) {
+					bad = true
+				}
+			case *ast.UnaryExpr:
+				if i, ok := y.X.(*ast.Ident); ok && y.Op == token.AND && (i.Name == n.Name || i.Name == x.Name) {
+					bad = true
+				}
+			case *ast.RangeStmt:
+				for _, kv := range []ast.Expr{y.Key, y.Value} {
+					if i, ok := kv.(*ast.Ident); ok && (i.Name == n.Name || i.Name == x.Name) {
+						bad = true
+					}
+				}
+			}
+			return true
+		})
+		if bad {
+			continue
+		}
+		rest := &ast.BlockStmt{List: fd.Body.List[k+1:]}
+		mapExprs(rest, func(e ast.Expr) ast.Expr {
+			if i, ok := e.(*ast.Ident); ok && i.Name == n.Name {
+				return &ast.CallExpr{Fun: ast.NewIdent(f.Name), Args: []ast.Expr{ast.NewIdent(x.Name)}}
+			}
+			return e
+		})
+		fd.Body.List = append(append([]ast.Stmt{}, fd.Body.List[:k]...), rest.List...)
+		k--
+	}
+}
+
+// `for i := 0; i < len(xs); i++ { … xs[i] … }` with i used only as the index of xs (never assigned) is
+// `for _, v := range xs { … v … }` (xs is not assigned in the body).
+func normaliseIndexLoops(fd *ast.FuncDecl) {
+	used := map[string]bool{}
+	ast.Inspect(fd, func(n ast.Node) bool {
+		if i, ok := n.(*ast.Ident); ok {
+			used[i.Name] = true
+		}
+		return true
+	})
+	var doList func(list []ast.Stmt)
+	doList = func(list []ast.Stmt) {
+		for k, st := range list {
+			fs, ok := st.(*ast.ForStmt)
+			if !ok || fs.Init == nil || fs.Cond == nil || fs.Post == nil {
+				continue
+			}
+			init, ok := fs.Init.(*ast.AssignStmt)
+			if !ok || init.Tok != token.DEFINE || len(init.Lhs) != 1 || src(init.Rhs[0]) != "0" {
+				continue
+			}
+			i, ok := init.Lhs[0].(*ast.Ident)
+			if !ok || src(fs.Post) != i.Name+"++" {
+				continue
+			}
+			cond, ok := fs.Cond.(*ast.BinaryExpr)
+			if !ok || cond.Op != token.LSS || src(cond.X) != i.Name {
+				continue
+			}
+			lc, ok := cond.Y.(*ast.CallExpr)
+			if !ok || src(lc.Fun) != "len" || len(lc.Args) != 1 {
+				continue
+			}
+			xs, ok := lc.Args[0].(*ast.Ident)
+			if !ok {
+				continue
+			}
+			// every mention of i in the body is xs[i]; xs not assigned
+			okBody, uses := true, 0
+			var check func(n ast.Node) bool
+			check = func(n ast.Node) bool {
+				switch y := n.(type) {
+				case *ast.IndexExpr:
+					if a, ok := y.X.(*ast.Ident); ok && a.Name == xs.Name {
+						if b, ok := y.Index.(*ast.Ident); ok && b.Name == i.Name {
+							uses++
+							return false
+						}
+					}
+				case *ast.Ident:
+					if y.Name == i.Name {
+						okBody = false
+					}
+				case *ast.AssignStmt:
+					for _, l := range y.Lhs {
+						if a, ok := l.(*ast.Ident); ok && a.Name == xs.Name {
+							okBody = false
+						}
+					}
+				}
+				return true
+			}
+			ast.Inspect(fs.Body, check)
+			if !okBody || uses == 0 {
+				continue
+			}
+			v := "c"
+			for used[v] {
+				v += "_"
+			}
+			used[v] = true
+			mapExprs(fs.Body, func(e ast.Expr) ast.Expr {
+				if y, ok := e.(*ast.IndexExpr); ok {
+					if a, ok := y.X.(*ast.Ident); ok && a.Name == xs.Name {
+						if b, ok := y.Index.(*ast.Ident); ok && b.Name == i.Name {
+							return ast.NewIdent(v)
+						}
+					}
+				}
+				return e
+			})
+			list[k] = &ast.RangeStmt{Key: ast.NewIdent("_"), Value: ast.NewIdent(v), Tok: token.DEFINE, X: ast.NewIdent(xs.Name), Body: fs.Body}
+		}
+	}
+	doList(fd.Body.List)
+}
+
+// Statement-level inlining of unexported top-level functions of the same file (not methods), arguments identifiers
+// (or `&ident`, passed on as the identifier: methods are called on the pointer and the variable alike):
+//
+//	h(a…)            →  h's body                      (no `return` in it, or h(a…) is the last statement of a function
+//	                                                   body, where h's bare returns end what the call would end)
+//	x := h(a…)       →  h's body without its final `return E`, then `x := E` (no other return in h); when E is a local
+//	                    of h that local is renamed to x
+//	go h(a…)         →  go func() { h's body }()
+//
+// Parameters are renamed to the arguments; h must not assign a parameter (it is a copy) unless the caller never
+// mentions the argument afterwards; a local of h must be new to the caller. Applied repeatedly (helpers calling
+// helpers), everywhere in the function including function literals.
+func inlineStmtCalls(path string, fd *ast.FuncDecl) {
+	callerTP := map[string]bool{}
+	for _, t := range typeParams(fd) {
+		callerTP[t] = true
+	}
+	for round := 0; round < 6; round++ {
+		changed := false
+		var doList func(list []ast.Stmt, lastOfFunc bool) []ast.Stmt
+		var walk func(n ast.Node)
+		walk = func(n ast.Node) {
+			ast.Inspect(n, func(m ast.Node) bool {
+				switch y := m.(type) {
+				case *ast.FuncLit:
+					y.Body.List = doList(y.Body.List, true)
+					return false
+				case *ast.BlockStmt:
+					y.List = doList(y.List, false)
+					return false
+				case *ast.CaseClause:
+					y.Body = doList(y.Body, false)
+					return false
+				case *ast.CommClause:
+					y.Body = doList(y.Body, false)
+					return false
+				}
+				return true
+			})
+		}
+		doList = func(list []ast.Stmt, lastOfFunc bool) []ast.Stmt {
+			out := []ast.Stmt{}
+			for k, st := range list {
+				var call *ast.CallExpr
+				kind, lhs := "", ""
+				switch y := st.(type) {
+				case *ast.ExprStmt:
+					call, _ = y.X.(*ast.CallExpr)
+					kind = "stmt"
+				case *ast.AssignStmt:
+					if y.Tok == token.DEFINE && len(y.Lhs) == 1 && len(y.Rhs) == 1 {
+						if i, ok := y.Lhs[0].(*ast.Ident); ok {
+							call, _ = y.Rhs[0].(*ast.CallExpr)
+							kind, lhs = "define", i.Name
+						}
+					}
+				case *ast.GoStmt:
+					call = y.Call
+					kind = "go"
+				}
+				var body []ast.Stmt
+				if call != nil {
+					body = inlineBody(path, fd, call, kind, lhs, lastOfFunc && k == len(list)-1, callerTP)
+				}
+				if body == nil {
+					walk(st)
+					out = append(out, st)
+					continue
+				}
+				changed = true
+				if kind == "go" {
+					out = append(out, &ast.GoStmt{Call: &ast.CallExpr{Fun: &ast.FuncLit{Type: &ast.FuncType{Params: &ast.FieldList{}}, Body: &ast.BlockStmt{List: body}}}})
+				} else {
+					out = append(out, body...)
+				}
+			}
+			return out
+		}
+		fd.Body.List = doList(fd.Body.List, true)
+		if !changed {
+			return
+		}
+	}
+}
+
+func inlineBody(path string, caller *ast.FuncDecl, call *ast.CallExpr, kind, lhs string, isLast bool, callerTP map[string]bool) []ast.Stmt {
+	h, ok := call.Fun.(*ast.Ident)
+	if !ok || call.Ellipsis != token.NoPos {
+		return nil
+	}
+	args := []string{}
+	for _, a := range call.Args {
+		if u, ok := a.(*ast.UnaryExpr); ok && u.Op == token.AND {
+			a = u.X
+		}
+		i, ok := a.(*ast.Ident)
+		if !ok || i.Name == "nil" || i.Name == "true" || i.Name == "false" {
+			return nil
+		}
+		args = append(args, i.Name)
+	}
+	f := parse(path)
+	for _, d := range f.Decls {
+		hd, ok := d.(*ast.FuncDecl)
+		if !ok || hd.Recv != nil || hd.Name.Name != h.Name || hd.Name.IsExported() || hd.Body == nil || hd.Name.Name == caller.Name.Name {
+			continue
+		}
+		for _, t := range typeParams(hd) {
+			if !callerTP[t] {
+				return nil
+			}
+		}
+		nres := 0
+		if hd.Type.Results != nil {
+			for _, r := range hd.Type.Results.List {
+				if len(r.Names) > 0 {
+					return nil
+				}
+				nres++
+			}
+		}
+		if (kind == "define") != (nres == 1) || nres > 1 {
+			return nil
+		}
+		params := []string{}
+		for _, p := range hd.Type.Params.List {
+			if _, variadic := p.Type.(*ast.Ellipsis); variadic {
+				return nil
+			}
+			if _, isFunc := p.Type.(*ast.FuncType); isFunc {
+				return nil // function-typed parameters: expandHelpers
+			}
+			for _, n := range p.Names {
+				params = append(params, n.Name)
+			}
+		}
+		if len(params) != len(args) {
+			return nil
+		}
+		ren := map[string]string{}
+		isParam := map[string]bool{}
+		for k, pn := range params {
+			ren[pn] = args[k]
+			isParam[pn] = true
+		}
+		// returns
+		list := hd.Body.List
+		nret := 0
+		ast.Inspect(hd.Body, func(n ast.Node) bool {
+			switch n.(type) {
+			case *ast.FuncLit:
+				return false
+			case *ast.ReturnStmt:
+				nret++
+			}
+			return true
+		})
+		var resExpr ast.Expr
+		if kind == "define" {
+			r, ok := list[len(list)-1].(*ast.ReturnStmt)
+			if !ok || nret != 1 || len(r.Results) != 1 {
+				return nil
+			}
+			resExpr = r.Results[0]
+			list = list[:len(list)-1]
+		} else if nret > 0 && !(isLast || kind == "go") {
+			// a trailing bare return is harmless anywhere
+			if r, ok := list[len(list)-1].(*ast.ReturnStmt); ok && nret == 1 && len(r.Results) == 0 {
+				list = list[:len(list)-1]
+			} else {
+				return nil
+			}
+		}
+		// names
+		callerNames := map[string]bool{}
+		ast.Inspect(caller, func(n ast.Node) bool {
+			if i, ok := n.(*ast.Ident); ok {
+				callerNames[i.Name] = true
+			}
+			return true
+		})
+		resLocal := ""
+		if i, ok := resExpr.(*ast.Ident); ok && !isParam[i.Name] {
+			resLocal = i.Name
+		}
+		bad := false
+		ast.Inspect(hd.Body, func(n ast.Node) bool {
+			switch y := n.(type) {
+			case *ast.AssignStmt:
+				for _, l := range y.Lhs {
+					if i, ok := l.(*ast.Ident); ok {
+						if isParam[i.Name] {
+							bad = true
+						}
+						if y.Tok == token.DEFINE && callerNames[i.Name] && i.Name != resLocal {
+							bad = true
+						}
+					}
+				}
+			case *ast.ValueSpec:
+				for _, i := range y.Names {
+					if callerNames[i.Name] && i.Name != resLocal {
+						bad = true
+					}
+				}
+			case *ast.RangeStmt:
+				for _, kv := range []ast.Expr{y.Key, y.Value} {
+					if i, ok := kv.(*ast.Ident); ok && i.Name != "_" && (isParam[i.Name] || callerNames[i.Name]) && y.Tok == token.DEFINE {
+						bad = true
+					}
+				}
+			case *ast.IncDecStmt:
+				if i, ok := y.X.(*ast.Ident); ok && isParam[i.Name] {
+					bad = true
+				}
+			case *ast.UnaryExpr:
+				if i, ok := y.X.(*ast.Ident); ok && y.Op == token.AND && isParam[i.Name] {
+					bad = true
+				}
+			}
+			return true
+		})
+		if bad {
+			return nil
+		}
+		if resLocal != "" {
+			if resLocal != lhs && callerNames[lhs] && lhs != "" {
+				// the caller's name for the result is taken by the caller already only as this very definition: fine
+			}
+			ren[resLocal] = lhs
+		}
+		holder := &ast.BlockStmt{List: list}
+		ast.Inspect(holder, func(n ast.Node) bool {
+			if i, ok := n.(*ast.Ident); ok {
+				if to, ok := ren[i.Name]; ok {
+					i.Name = to
+				}
+			}
+			return true
+		})
+		out := append([]ast.Stmt{}, holder.List...)
+		if kind == "define" && resLocal == "" {
+			ast.Inspect(resExpr, func(n ast.Node) bool {
+				if i, ok := n.(*ast.Ident); ok {
+					if to, ok := ren[i.Name]; ok {
+						i.Name = to
+					}
+				}
+				return true
+			})
+			out = append(out, &ast.AssignStmt{Lhs: []ast.Expr{ast.NewIdent(lhs)}, Tok: token.DEFINE, Rhs: []ast.Expr{resExpr}})
+		}
+		if len(out) == 0 {
+			out = append(out, &ast.EmptyStmt{})
+		}
+		return out
+	}
+	return nil
+}
+
+// Small normalisations inside every function body of fd (the function itself and its literals):
+//   - `defer func() { close(a); close(b) }()` (only close calls / x.Done()) is `defer close(b); defer close(a)`;
+//   - `x := struct{}{}` / `x := <basic literal>` never assigned again nor addressed: x is that literal;
+//   - `for range n { B }` (n an identifier, Go 1.22 integer range) is `for i := 0; i < n; i++ { B }`.
+func normaliseSmall(fd *ast.FuncDecl) {
+	used := map[string]bool{}
+	ast.Inspect(fd, func(n ast.Node) bool {
+		if i, ok := n.(*ast.Ident); ok {
+			used[i.Name] = true
+		}
+		return true
+	})
+	intParams := map[string]bool{}
+	for _, p := range fd.Type.Params.List {
+		if src(p.Type) == "int" {
+			for _, n := range p.Names {
+				intParams[n.Name] = true
+			}
+		}
+	}
+	var doBody func(b *ast.BlockStmt)
+	doBody = func(b *ast.BlockStmt) {
+		out := []ast.Stmt{}
+		for _, st := range b.List {
+			if d, ok := st.(*ast.DeferStmt); ok && len(d.Call.Args) == 0 {
+				if lit, ok := d.Call.Fun.(*ast.FuncLit); ok && len(lit.Body.List) > 1 {
+					simple := true
+					for _, s := range lit.Body.List {
+						es, ok := s.(*ast.ExprStmt)
+						if !ok {
+							simple = false
+							break
+						}
+						c, ok := es.X.(*ast.CallExpr)
+						if !ok || !(src(c.Fun) == "close" && len(c.Args) == 1) {
+							simple = false
+						}
+					}
+					if simple {
+						for k := len(lit.Body.List) - 1; k >= 0; k-- {
+							out = append(out, &ast.DeferStmt{Call: lit.Body.List[k].(*ast.ExprStmt).X.(*ast.CallExpr)})
+						}
+						continue
+					}
+				}
+			}
+			out = append(out, st)
+		}
+		b.List = out
+		// literal locals
+		for k := 0; k < len(b.List); k++ {
+			as, ok := b.List[k].(*ast.AssignStmt)
+			if !ok || as.Tok != token.DEFINE || len(as.Lhs) != 1 || len(as.Rhs) != 1 {
+				continue
+			}
+			x, ok := as.Lhs[0].(*ast.Ident)
+			if !ok {
+				continue
+			}
+			isLit := false
+			switch r := as.Rhs[0].(type) {
+			case *ast.BasicLit:
+				isLit = true
+			case *ast.CompositeLit:
+				isLit = src(r) == "struct{}{}"
+			}
+			if !isLit {
+				continue
+			}
+			bad := false
+			rest := &ast.BlockStmt{List: b.List[k+1:]}
+			ast.Inspect(rest, func(n ast.Node) bool {
+				switch y := n.(type) {
+				case *ast.AssignStmt:
+					for _, l := range y.Lhs {
+						if i, ok := l.(*ast.Ident); ok && i.Name == x.Name {
+							bad = true
+						}
+					}
+				case *ast.IncDecStmt:
+					if i, ok := y.X.(*ast.Ident); ok && i.Name == x.Name {
+						bad = true
+					}
+				case *ast.UnaryExpr:
+					if i, ok := y.X.(*ast.Ident); ok && y.Op == token.AND && i.Name == x.Name {
+						bad = true
+					}
+				}
+				return true
+			})
+			if bad {
+				continue
+			}
+			lit := as.Rhs[0]
+			mapExprs(rest, func(e ast.Expr) ast.Expr {
+				if i, ok := e.(*ast.Ident); ok && i.Name == x.Name {
+					return lit
+				}
+				return e
+			})
+			b.List = append(append([]ast.Stmt{}, b.List[:k]...), rest.List...)
+			k--
+		}
+	}
+	ast.Inspect(fd, func(n ast.Node) bool {
+		switch y := n.(type) {
+		case *ast.BlockStmt:
+			doBody(y)
+			for k, st := range y.List {
+				if rs, ok := st.(*ast.RangeStmt); ok && rs.Key == nil && rs.Value == nil {
+					if i, ok := rs.X.(*ast.Ident); ok && intParams[i.Name] {
+						v := "i"
+						for used[v] {
+							v += "_"
+						}
+						used[v] = true
+						y.List[k] = &ast.ForStmt{
+							Init: &ast.AssignStmt{Lhs: []ast.Expr{ast.NewIdent(v)}, Tok: token.DEFINE, Rhs: []ast.Expr{&ast.BasicLit{Kind: token.INT, Value: "0"}}},
+							Cond: &ast.BinaryExpr{X: ast.NewIdent(v), Op: token.LSS, Y: ast.NewIdent(i.Name)},
+							Post: &ast.IncDecStmt{X: ast.NewIdent(v), Tok: token.INC},
+							Body: rs.Body}
+					}
+				}
+			}
+		}
+		return true
+	})
 }
